@@ -21,6 +21,17 @@ pub fn with_parser<R>(
     sort: Sort,
     f: impl FnOnce(&AdfParser) -> R,
 ) -> Result<R, String> {
+    with_parser_opt(text, sort, false, f)
+}
+
+/// As `with_parser`; with `reuse` the parser object is first used to build ADFs in parse order
+/// and only then re-sorted (a parser object may be reused: objects built AFTER a re-sort must be right).
+pub fn with_parser_opt<R>(
+    text: &str,
+    sort: Sort,
+    reuse: bool,
+    f: impl FnOnce(&AdfParser) -> R,
+) -> Result<R, String> {
     let parser = AdfParser::default();
     match parser.parse()(text) {
         Ok((rest, ())) => {
@@ -29,6 +40,10 @@ pub fn with_parser<R>(
             }
         }
         Err(e) => return Err(format!("parse error: {e}")),
+    }
+    if reuse {
+        let _ = Adf::from_parser(&parser);
+        let _ = parser.var_container();
     }
     match sort {
         Sort::None => {}
